@@ -23,6 +23,8 @@ RULE = (
     "SyntaxError, IndexError, ...); message = location (file, line inside the decorator) + description + condition text that parses "
     "to the generated expression; the probes evaluated while the message is built are a subset of those CPython evaluated. "
     "Non-trivial = violated condition; distinct = (expression, layout, error form)."
+    ' Fixed corner conditions: a closure variable not bound yet behind a short-circuit, a callee that compares equa'
+    'l to everything called with a generator.'
 )
 ASSUMPTIONS = ["lambdas outside decorators, inline lambdas inside conditions and string literals that look like def/class lines are silent zones"]
 
